@@ -94,23 +94,38 @@ package banderwagon
 //@ ensures *res == fr_of_int(fp_to_int(p.inner.X * fp_inv(p.inner.Y)) % R_MOD)
 //@ modifies *res
 
-// BatchMapToScalarField: error clause, bounds and nil safety are proved; the position-wise value clause
-// (result[k] == MapToScalarField(elements[k])) needs aliasing reasoning over a slice of pointers that the
-// solvers do not discharge: it is covered by the bounded differential stand-in of C11/C19, not by proof.
+// BatchMapToScalarField: error clause, bounds, nil safety, the Fp frame and the position-wise value clause
+// (bmap: *result[k] is the MapToScalarField value of elements[k], the same spec term as in the single-element
+// contract) are proved for pairwise distinct result pointers; elements may alias each other and the inputs freely.
 //@ func BatchMapToScalarField
 //@ props C11
-//@ prelude field bytesint frint
-//@ requires forall k int :: 0 <= k && k < len(elements) ==> obj(elements[k]) >= 1
-//@ requires forall k int :: 0 <= k && k < len(result) ==> obj(result[k]) >= 1
+//@ prelude field bytesint frint batchspec
+//@ let HP = heapFp()
+//@ let EL = row(elements)
+//@ let Eo = off(elements)
+//@ let RES = row(result)
+//@ let Ro = off(result)
+//@ requires forall k int :: 0 <= k && k < len(elements) ==> obj(elements[k]) >= 1 && allocated(elements[k])
+//@ requires forall k int :: 0 <= k && k < len(result) ==> obj(result[k]) >= 1 && allocated(result[k])
+// position by position is meaningful for pairwise distinct result pointers (a repeated pointer keeps the last write)
+//@ requires forall j int, k int :: 0 <= j && j < k && k < len(result) ==> !(pobj(RES, Ro, j) == pobj(RES, Ro, k) && poff(RES, Ro, j) == poff(RES, Ro, k))
 //@ ensures err != nil <==> len(result) != len(elements)
+//@ ensures @C11 err == nil ==> bmap(heapFr(), RES, Ro, HP, EL, Eo, len(elements))
 // the inputs are only read: no pre-existing point (Fp) cell changes, whatever the aliasing among the pointers
 //@ ensures @C11 forall o int, k int :: 1 <= o && allocated(o) ==> heapFp()[o][k] == old(heapFp())[o][k]
 //@ modifies *
 //@ loop 0 invariant 0 <= i && i <= len(elements) && len(ys) == len(elements) && fresh(ys)
-//@ loop 0 invariant forall k int :: 0 <= k && k < len(elements) ==> obj(elements[k]) >= 1
-//@ loop 1 invariant 0 <= i && i <= len(elements) && len(yInvs) == len(elements) && len(result) == len(elements)
-//@ loop 1 invariant forall k int :: 0 <= k && k < len(elements) ==> obj(elements[k]) >= 1
-//@ loop 1 invariant forall k int :: 0 <= k && k < len(result) ==> obj(result[k]) >= 1
+//@ loop 0 invariant forall k int :: 0 <= k && k < i ==> ys[k] == elements[k].inner.Y
+//@ loop 1 invariant 0 <= i && i <= len(elements) && len(yInvs) == len(elements) && len(result) == len(elements) && fresh(yInvs)
+//@ loop 1 invariant row(result) == RES && off(result) == Ro && row(elements) == EL && off(elements) == Eo
+//@ loop 1 invariant forall k int :: 0 <= k && k < len(elements) ==> yInvs[k] == fp_inv(HP[pobj(EL, Eo, k)][poff(EL, Eo, k) + 1])
+//@ loop 1 invariant bmap(heapFr(), RES, Ro, HP, EL, Eo, i)
+//@ at loopbody 1: ghost HRp := heapFr()
+//@ at call SetBytesLE 0: assert@resi obj(result[i]) == pobj(RES, Ro, i) && off(result[i]) == poff(RES, Ro, i)
+//@ at call SetBytesLE 0: assert@others forall k int :: 0 <= k && k < i ==> heapFr()[pobj(RES, Ro, k)][poff(RES, Ro, k)] == HRp[pobj(RES, Ro, k)][poff(RES, Ro, k)]
+//@ at call SetBytesLE 0: assert@prefix bmap(heapFr(), RES, Ro, HP, EL, Eo, i)
+//@ at call SetBytesLE 0: assert@cell heapFr()[pobj(RES, Ro, i)][poff(RES, Ro, i)] == fr_of_int(fp_to_int(HP[pobj(EL, Eo, i)][poff(EL, Eo, i)] * fp_inv(HP[pobj(EL, Eo, i)][poff(EL, Eo, i) + 1])) % R_MOD)
+//@ at call SetBytesLE 0: assert@next bmap(heapFr(), RES, Ro, HP, EL, Eo, i + 1)
 
 // ---- batch serialisation (C19)
 
